@@ -185,6 +185,21 @@ theorem deadline_armed_first (P : Prims) (F : Factory) (c : Conn) (f : RF.Filter
       (run P F c f []).2 = [Out.setDeadline (some (c.start + (serverHandshakeTimeout : Int)))] :=
   ⟨_, rfl, rfl⟩
 
+/-- **deadline discipline, every run** (valid handshake or not; also what C10 asks of the obfs4 server
+    handshake): everything done to the conn is `SetDeadline(start + 30 s)` followed by exactly one of
+    — nothing yet; `SetReadDeadline(D)`; `SetReadDeadline(D), Close`; `Close`; or, on success,
+    `SetDeadline(time.Time{})` (the last deadline event is the clear) and **one** write. -/
+theorem deadline_discipline (P : Prims) (F : Factory) (c : Conn) (f : RF.Filter) (evs : List Ev) :
+    let D := closeDeadline c.start F.closeDelay
+    ∃ w, wire (run P F c f evs).2 = Out.setDeadline (some (c.start + (serverHandshakeTimeout : Int))) :: w ∧
+      (w = [] ∨ w = [.setReadDeadline D] ∨ w = [.setReadDeadline D, .close] ∨ w = [.close]
+        ∨ ∃ b, w = [.setDeadline none, .write b]) := by
+  intro D
+  have hsh := shape_all_from P F c (normalize evs) (initState F c f)
+  refine ⟨wire (outsOf (trace P F c f evs).2), ?_, ?_⟩
+  · simp [run, initOuts, wire, List.filter, Out.isWire, outsOf]
+  · simpa [initState, ShapeAll, trace] using hsh
+
 /-! ## Non-vacuity: concrete instances (toy primitives, evaluated by the kernel) -/
 
 /-- a toy keyed hash: 32 equal bytes derived from a rolling checksum of key and message -/
